@@ -1,12 +1,14 @@
 #!/bin/sh
-# (re)creates go.mod/go.sum of the harness module from /repo's current go.mod
+# (re)creates go.mod/go.sum of the harness module from the repository's current go.mod
 set -e
 cd "$(dirname "$0")"
 REPO=${VERIF_REPO:-/repo}
-sed -e 's#^module .*#module verifharness#' "$REPO/go.mod" > go.mod
-cat >> go.mod <<EOT
+tmp=$(mktemp go.mod.XXXXXX.tmp)
+sed -e 's#^module .*#module verifharness#' "$REPO/go.mod" > "$tmp"
+cat >> "$tmp" <<EOT
 
 require github.com/aukilabs/hagall v0.0.0
 replace github.com/aukilabs/hagall => $REPO
 EOT
-cp "$REPO/go.sum" go.sum
+if cmp -s "$tmp" go.mod; then rm -f "$tmp"; else mv "$tmp" go.mod; fi
+cmp -s "$REPO/go.sum" go.sum || cp "$REPO/go.sum" go.sum
